@@ -1,3 +1,370 @@
+/-
+  Property C20 — XML-name coercion always yields legal names (and is the identity on legal ones);
+  coerced comments / public identifiers are legal.
+  Model: H5.Model.Infoset (hand model tied by ops xml:*); classes extracted from the compiled regexps and,
+  for the XML side, from the production text the module itself quotes (H5.Gen.Infoset).
+-/
 import H5.Model.Infoset
+import H5.Proofs.Ranges
 namespace H5.Props.C20
+open H5 H5.Gen H5.Model.Infoset
+
+/-! ### the two regular-expression classes are exactly the complements of the XML productions (BMP) -/
+
+theorem C20_classes_first (c : Nat) (h : c ≤ 65535) : illegalFirst c = !inRanges xmlNameStart c := by
+  have e : compl 65535 0 xmlNameStart = nonXmlNameFirst := by decide +kernel
+  have s : sortedFrom 0 xmlNameStart = true := by decide +kernel
+  rw [illegalFirst, ← e]
+  exact inRanges_compl 65535 0 xmlNameStart c s (Nat.zero_le _) h
+
+theorem C20_classes_rest (c : Nat) (h : c ≤ 65535) : illegalRest c = !inRanges xmlNameChar c := by
+  have e : compl 65535 0 xmlNameChar = nonXmlName := by decide +kernel
+  have s : sortedFrom 0 xmlNameChar = true := by decide +kernel
+  rw [illegalRest, ← e]
+  exact inRanges_compl 65535 0 xmlNameChar c s (Nat.zero_le _) h
+
+/-! ### the escape `U%05X` -/
+
+def isHexU (d : Nat) : Prop := (48 ≤ d ∧ d ≤ 57) ∨ (65 ≤ d ∧ d ≤ 70)
+
+theorem hexDigitCharU_ok (m : Nat) (h : m < 16) : isHexU (hexDigitCharU m) := by
+  unfold hexDigitCharU isHexU; split <;> omega
+
+theorem toHexAux_ok (fuel n : Nat) (acc : Str) (hacc : ∀ d ∈ acc, isHexU d) :
+    ∀ d ∈ toHexAux hexDigitCharU fuel n acc, isHexU d := by
+  induction fuel generalizing n acc with
+  | zero => simpa [toHexAux] using hacc
+  | succ k ih =>
+    simp only [toHexAux]
+    split
+    · intro d hd
+      simp at hd
+      rcases hd with rfl | hd
+      · exact hexDigitCharU_ok _ (by omega)
+      · exact hacc d hd
+    · apply ih
+      intro d hd
+      simp at hd
+      rcases hd with rfl | hd
+      · exact hexDigitCharU_ok _ (Nat.mod_lt _ (by omega))
+      · exact hacc d hd
+
+theorem escapeChar_shape (c : Nat) : ∃ ds, escapeChar c = 85 :: ds ∧ ∀ d ∈ ds, isHexU d := by
+  refine ⟨padZero 5 (toHexUpper c), rfl, ?_⟩
+  intro d hd
+  simp only [padZero, List.mem_append, List.mem_replicate] at hd
+  rcases hd with ⟨_, rfl⟩ | hd
+  · left; omega
+  · exact toHexAux_ok _ _ [] (by simp) d hd
+
+/-- TableOK: the characters an escape consists of are legal XML name characters, `U` may start a name,
+and neither is matched by the two regular expressions nor by the pubid expression. -/
+theorem escape_chars_ok : ∀ d, (d = 85 ∨ isHexU d) →
+    inRanges xmlNameChar d = true ∧ illegalRest d = false ∧ inRanges nonPubidChar d = false := by
+  intro d hd
+  have hm : d ∈ [85, 48, 49, 50, 51, 52, 53, 54, 55, 56, 57, 65, 66, 67, 68, 69, 70] := by
+    simp only [List.mem_cons, List.not_mem_nil, or_false]
+    rcases hd with rfl | hd
+    · simp
+    · unfold isHexU at hd; omega
+  have key : ∀ d ∈ [85, 48, 49, 50, 51, 52, 53, 54, 55, 56, 57, 65, 66, 67, 68, 69, 70],
+      inRanges xmlNameChar d = true ∧ illegalRest d = false ∧ inRanges nonPubidChar d = false := by
+    decide +kernel
+  exact key d hm
+
+theorem U_starts_name : inRanges xmlNameStart 85 = true := by decide +kernel
+
+/-! ### sequential `str.replace` over a set of characters = simultaneous substitution, for ANY iteration order -/
+
+theorem replaceChar_flatMap (l : Str) (f : Nat → Str) (o : Nat) (n : Str) :
+    Str.replaceChar (l.flatMap f) o n = l.flatMap (fun c => Str.replaceChar (f c) o n) := by
+  simp only [Str.replaceChar, List.flatMap_assoc]
+
+theorem replaceChar_noop (s : Str) (o : Nat) (n : Str) (h : o ∉ s) : Str.replaceChar s o n = s := by
+  induction s with
+  | nil => rfl
+  | cons c r ih =>
+    simp only [List.mem_cons, not_or] at h
+    have hc : ¬ c = o := fun e => h.1 e.symm
+    have := ih h.2
+    simp only [Str.replaceChar, List.flatMap_cons, hc, if_false] at this ⊢
+    simp [this]
+
+/-- substitution state after the characters in `done` have been processed -/
+def gDone (done : Str) (c : Nat) : Str := if c ∈ done then escapeChar c else [c]
+
+theorem escape_no_bad (bad : Nat → Bool) (hbad : ∀ d, (d = 85 ∨ isHexU d) → bad d = false)
+    (c ch : Nat) (hch : bad ch = true) : ch ∉ escapeChar c := by
+  obtain ⟨ds, e, hds⟩ := escapeChar_shape c
+  rw [e]
+  intro hm
+  simp at hm
+  rcases hm with rfl | hm
+  · have := hbad 85 (Or.inl rfl); rw [this] at hch; exact absurd hch (by simp)
+  · have := hbad ch (Or.inr (hds ch hm)); rw [this] at hch; exact absurd hch (by simp)
+
+theorem replaceAll_gen (bad : Nat → Bool) (hbad : ∀ d, (d = 85 ∨ isHexU d) → bad d = false)
+    (order done s : Str) (hord : ∀ c ∈ order, bad c = true) :
+    replaceAll order (s.flatMap (gDone done)) = s.flatMap (gDone (order.reverse ++ done)) := by
+  induction order generalizing done with
+  | nil => simp [replaceAll]
+  | cons ch rest ih =>
+    have hch : bad ch = true := hord ch (List.mem_cons_self)
+    have step : Str.replaceChar (s.flatMap (gDone done)) ch (escapeChar ch) = s.flatMap (gDone (ch :: done)) := by
+      rw [replaceChar_flatMap]
+      congr 1
+      funext c
+      unfold gDone
+      by_cases hc : c ∈ done
+      · simp only [hc, if_true, List.mem_cons, or_true]
+        exact replaceChar_noop _ _ _ (escape_no_bad bad hbad c ch hch)
+      · by_cases hcc : c = ch
+        · subst hcc
+          simp [hc, Str.replaceChar]
+        · have : ¬ ch = c := fun e => hcc e.symm
+          simp [hc, hcc, Str.replaceChar]
+    have := ih (ch :: done) (fun c hc => hord c (List.mem_cons_of_mem _ hc))
+    simp only [replaceAll, List.foldl_cons] at this ⊢
+    rw [step, this]
+    simp
+
+theorem flatMap_congr' (s : Str) (f g : Nat → Str) (h : ∀ c ∈ s, f c = g c) : s.flatMap f = s.flatMap g := by
+  induction s with
+  | nil => rfl
+  | cons c r ih =>
+    simp only [List.flatMap_cons]
+    rw [h c List.mem_cons_self, ih (fun x hx => h x (List.mem_cons_of_mem _ hx))]
+
+theorem flatMap_gDone_nil (s : Str) : s.flatMap (gDone []) = s := by
+  induction s with
+  | nil => rfl
+  | cons c r ih => simp [gDone] at ih ⊢; exact ih
+
+/-- **order independence**: whatever order the characters to replace are visited in (and with or without
+repetitions), the loop computes the simultaneous substitution. -/
+theorem replaceAll_eq (bad : Nat → Bool) (hbad : ∀ d, (d = 85 ∨ isHexU d) → bad d = false)
+    (order s : Str) (hord : ∀ c ∈ order, bad c = true) (hall : ∀ c ∈ s, bad c = true → c ∈ order) :
+    replaceAll order s = s.flatMap (fun c => if bad c then escapeChar c else [c]) := by
+  have := replaceAll_gen bad hbad order [] s hord
+  rw [flatMap_gDone_nil] at this
+  rw [this]
+  apply flatMap_congr'
+  intro c hc
+  unfold gDone
+  by_cases hb : bad c = true
+  · simp [hb, hall c hc hb]
+  · have : c ∉ order := fun h => hb (hord c h)
+    simp [hb, this]
+
+theorem mem_distinct (l : Str) (c : Nat) : c ∈ distinct l ↔ c ∈ l := by
+  induction l with
+  | nil => simp [distinct]
+  | cons a r ih =>
+    simp only [distinct, List.mem_cons, List.mem_filter, ih]
+    by_cases h : c = a <;> simp [h]
+
+def escMap (c : Nat) : Str := if illegalRest c then escapeChar c else [c]
+
+/-- closed form of `toXmlName` -/
+theorem toXmlName_spec (f : Nat) (rest : Str) :
+    toXmlName (f :: rest) = .ok ((if illegalFirst f then escapeChar f else [f]) ++ rest.flatMap escMap) := by
+  simp only [toXmlName]
+  congr 2
+  apply replaceAll_eq illegalRest (fun d hd => (escape_chars_ok d hd).2.1)
+  · intro c hc
+    rw [mem_distinct] at hc
+    simp at hc
+    exact hc.2
+  · intro c hc hb
+    rw [mem_distinct]
+    simp [hc, hb]
+
+/-- `toXmlName` raises only on the empty name (`name[0]`); the tokenizer never emits one. -/
+theorem C20_total (name : Str) (h : name ≠ []) : ∃ out, toXmlName name = .ok out := by
+  cases name with
+  | nil => exact absurd rfl h
+  | cons f rest => exact ⟨_, toXmlName_spec f rest⟩
+
+/-- legal XML 1.0 (4th ed.) name without colon, per the productions quoted in the module -/
+def XmlNameOk : Str → Prop
+  | [] => False
+  | c :: r => inRanges xmlNameStart c = true ∧ ∀ d ∈ r, inRanges xmlNameChar d = true
+
+/-- **C20 (legal).** every non-empty BMP name is coerced into a legal XML name. -/
+theorem C20_legal (name out : Str) (hbmp : ∀ c ∈ name, c ≤ 65535) (h : toXmlName name = .ok out) :
+    XmlNameOk out := by
+  cases name with
+  | nil => simp [toXmlName] at h
+  | cons f rest =>
+    rw [toXmlName_spec] at h
+    injection h with h
+    subst h
+    have hrest : ∀ d ∈ rest.flatMap escMap, inRanges xmlNameChar d = true := by
+      intro d hd
+      simp only [List.mem_flatMap] at hd
+      obtain ⟨c, hc, hd⟩ := hd
+      unfold escMap at hd
+      by_cases hi : illegalRest c = true
+      · simp only [hi, if_true] at hd
+        obtain ⟨ds, e, hds⟩ := escapeChar_shape c
+        rw [e] at hd
+        simp at hd
+        rcases hd with rfl | hd
+        · exact (escape_chars_ok 85 (Or.inl rfl)).1
+        · exact (escape_chars_ok d (Or.inr (hds d hd))).1
+      · simp only [hi] at hd
+        simp at hd
+        subst hd
+        have := C20_classes_rest d (hbmp d (List.mem_cons_of_mem _ hc))
+        simp only [Bool.not_eq_true] at hi
+        rw [hi] at this
+        simpa using this.symm
+    by_cases hf : illegalFirst f = true
+    · obtain ⟨ds, e, hds⟩ := escapeChar_shape f
+      simp only [hf, if_true, e, List.cons_append]
+      refine ⟨U_starts_name, ?_⟩
+      intro d hd
+      simp at hd
+      rcases hd with hd | hd
+      · exact (escape_chars_ok d (Or.inr (hds d hd))).1
+      · exact hrest d (by simpa using hd)
+    · simp only [hf, List.cons_append, List.nil_append]
+      refine ⟨?_, hrest⟩
+      have := C20_classes_first f (hbmp f List.mem_cons_self)
+      simp only [Bool.not_eq_true] at hf
+      rw [hf] at this
+      simpa using this.symm
+
+/-- **C20 (identity on legal names).** a legal colon-free BMP name is left unchanged. -/
+theorem C20_id (name : Str) (hbmp : ∀ c ∈ name, c ≤ 65535) (h : XmlNameOk name) : toXmlName name = .ok name := by
+  cases name with
+  | nil => exact absurd h (by simp [XmlNameOk])
+  | cons f rest =>
+    rw [toXmlName_spec]
+    obtain ⟨h1, h2⟩ := h
+    have hf : illegalFirst f = false := by
+      rw [C20_classes_first f (hbmp f List.mem_cons_self), h1]; rfl
+    have hr : rest.flatMap escMap = rest := by
+      clear hf h1
+      induction rest with
+      | nil => rfl
+      | cons c r ih =>
+        have hc : illegalRest c = false := by
+          rw [C20_classes_rest c (hbmp c (by simp)), h2 c List.mem_cons_self]; rfl
+        simp only [List.flatMap_cons, escMap, hc]
+        have := ih (fun x hx => hbmp x (by simp at hx ⊢; rcases hx with rfl | hx <;> simp [*]))
+          (fun d hd => h2 d (List.mem_cons_of_mem _ hd))
+        simp [escMap] at this ⊢
+        exact this
+    simp [hf, hr]
+
+/-! ### comments and public identifiers -/
+
+theorem loop_no_ddash (fuel : Nat) (d r : Str) : coerceCommentLoop fuel d = .ok r → r.contains ddash = false := by
+  induction fuel generalizing d with
+  | zero => simp [coerceCommentLoop]
+  | succ k ih =>
+    simp only [coerceCommentLoop]
+    split
+    · exact ih _
+    · rename_i h
+      intro e
+      injection e with e
+      subst e
+      simpa using h
+
+theorem no_ddash_append_space (d : Str) (h : Str.isInfix ddash d = false) : Str.isInfix ddash (d ++ [32]) = false := by
+  induction d with
+  | nil => decide
+  | cons c r ih =>
+    simp only [Str.isInfix, Bool.or_eq_false_iff] at h
+    simp only [List.cons_append, Str.isInfix, Bool.or_eq_false_iff]
+    refine ⟨?_, ?_⟩
+    · cases r with
+      | nil => simp [ddash, List.isPrefixOf]
+      | cons e r' => simpa [ddash, List.isPrefixOf] using h.1
+    · cases r with
+      | nil => decide
+      | cons e r' => exact ih h.2
+
+/-- **C20 (comments).** with `preventDoubleDashComments` a coerced comment never contains `--` nor ends in `-`. -/
+theorem C20_comment (f : Flags) (data r : Str) (hf : f.preventDoubleDashComments = true)
+    (h : coerceComment f data = .ok r) : r.contains ddash = false ∧ endsWithDash r = false := by
+  simp only [coerceComment, hf, if_true] at h
+  cases hl : coerceCommentLoop (data.length + 2) data with
+  | error e => rw [hl] at h; simp [bind, Except.bind] at h
+  | ok d =>
+    rw [hl] at h
+    simp only [bind, Except.bind, pure, Except.pure] at h
+    injection h with h
+    have nd := loop_no_ddash _ _ _ hl
+    by_cases he : endsWithDash d = true
+    · simp only [he, if_true] at h
+      subst h
+      refine ⟨no_ddash_append_space d nd, ?_⟩
+      simp [endsWithDash]
+    · simp only [he] at h
+      subst h
+      exact ⟨nd, by simpa using he⟩
+
+def isBadPubid (c : Nat) : Bool := inRanges nonPubidChar c
+
+/-- **C20 (public identifiers).** a coerced public identifier contains only XML PubidChars, and no `'` when
+`preventSingleQuotePubid` is set. -/
+theorem C20_pubid (f : Flags) (data : Str) :
+    (∀ c ∈ coercePubid f data, isBadPubid c = false) ∧
+    (f.preventSingleQuotePubid = true → 39 ∉ coercePubid f data) := by
+  have hbad : ∀ d, (d = 85 ∨ isHexU d) → isBadPubid d = false := fun d hd => (escape_chars_ok d hd).2.2
+  have e : replaceAll (data.filter isBadPubid) data = data.flatMap (fun c => if isBadPubid c then escapeChar c else [c]) :=
+    replaceAll_eq isBadPubid hbad _ _ (by intro c hc; simp at hc; exact hc.2) (by intro c hc hb; simp [hc, hb])
+  have hout : ∀ c ∈ replaceAll (data.filter isBadPubid) data, isBadPubid c = false := by
+    rw [e]
+    intro c hc
+    simp only [List.mem_flatMap] at hc
+    obtain ⟨x, _, hc⟩ := hc
+    by_cases hx : isBadPubid x = true
+    · simp only [hx, if_true] at hc
+      obtain ⟨ds, e2, hds⟩ := escapeChar_shape x
+      rw [e2] at hc
+      simp at hc
+      rcases hc with rfl | hc
+      · exact hbad 85 (Or.inl rfl)
+      · exact hbad c (Or.inr (hds c hc))
+    · simp only [hx] at hc
+      simp at hc
+      subst hc
+      simpa using hx
+  have hrep : ∀ c ∈ Str.replaceChar (replaceAll (data.filter isBadPubid) data) 39 (escapeChar 39),
+      isBadPubid c = false ∧ c ≠ 39 := by
+    intro c hc
+    simp only [Str.replaceChar, List.mem_flatMap] at hc
+    obtain ⟨x, hx, hc⟩ := hc
+    by_cases h39 : x = 39
+    · subst h39
+      simp only [if_true] at hc
+      obtain ⟨ds, e2, hds⟩ := escapeChar_shape 39
+      rw [e2] at hc
+      simp at hc
+      rcases hc with rfl | hc
+      · exact ⟨hbad 85 (Or.inl rfl), by decide⟩
+      · have := hds c hc
+        exact ⟨hbad c (Or.inr this), by unfold isHexU at this; omega⟩
+    · simp only [h39, if_false] at hc
+      simp at hc
+      subst hc
+      exact ⟨hout c hx, h39⟩
+  unfold coercePubid
+  simp only [isBadPubid] at *
+  constructor
+  · intro c hc
+    split at hc
+    · exact (hrep c hc).1
+    · exact hout c hc
+  · intro hq hm
+    split at hm
+    · exact (hrep 39 hm).2 rfl
+    · rename_i hn
+      apply hn
+      exact ⟨hq, by simpa using hm⟩
+
 end H5.Props.C20
